@@ -204,7 +204,9 @@ func C10CheckTrace(evs []impl.Event) string {
 			}
 		}
 	}
+	done := run.Track("CreateInMemory", "event stream "+evString(evs[:min(len(evs), 40)]))
 	root, err := store.CreateInMemory(sp)
+	done()
 	if err != nil {
 		return "CreateInMemory returned an error for a conforming stream: " + err.Error()
 	}
